@@ -5,7 +5,7 @@
    creates a value cell only when it is absent); mrun true ... : the pinned code (Register stores a
    fresh zero).  uses_as k name : name is used as a metric of kind k only (registrations of it all
    say k, value operations on it are of kind k, it is not also a Store()d constant, counts >= 0). *)
-From Refinery Require Import Lib.Base Model.Metrics Proofs.Metrics Gen.GenC33.
+From Refinery Require Import Lib.Base Model.Metrics Proofs.Metrics Model.MetricsConc Proofs.MetricsConc Gen.GenC33.
 
 Theorem C33_source_shape :
   register_keeps_existing_counter = true /\ register_keeps_existing_gauge = true /\
@@ -60,26 +60,51 @@ Theorem C33_get_updown : forall name ops,
 Proof. exact get_updown. Qed.
 Print Assumptions C33_get_updown.
 
-(* Interleavings, partial: taking every operation as one atomic step (its effect on the store is a
-   single atomic instruction on a cell that, after the fix, is never replaced - argued, not proved),
-   every interleaving of the threads' operation lists leaves the same counter / up-down value: the
-   sum over all threads, whatever the order of increments and (re-)registrations. Missing for the
-   full statement: the two-step (look up the cell, then update it) interleaving semantics. *)
+(* Interleavings, 1 (Model/MetricsConc.v): one value cell under goroutines whose Increment / Count / Up /
+   Down are the code's atomic steps - Load (hit or miss), LoadOrStore of a zero cell RETURNING THE
+   WINNER, Add on the cell held - interleaved with Register (LoadOrStore) and Get by ANY schedule.
+   At every point: value of the cell + increments not yet applied = all increments; hence when all
+   goroutines are done the cell holds the sum of everything every goroutine added, also when their
+   first uses of a fresh, unregistered name collide. *)
+Theorem C33_interleaving_conservation : forall progs sched,
+  let cf := run false (start progs) sched in
+  cval (cell cf) + outstanding (threads cf) = total progs.
+Proof. exact conservation. Qed.
+Print Assumptions C33_interleaving_conservation.
+Theorem C33_no_increment_lost : forall progs sched,
+  finished (run false (start progs) sched) = true ->
+  cval (cell (run false (start progs) sched)) = total progs.
+Proof. exact no_increment_lost. Qed.
+Print Assumptions C33_no_increment_lost.
+(* The variant whose slow path publishes a pre-loaded fresh cell with LoadOrStore and ignores whether
+   it was stored loses an increment when two first uses collide (1 + 1 = 1) - and only then. *)
+Theorem C33_ignore_loaded_refuted :
+  exists progs sched,
+    finished (run true (start progs) sched) = true /\
+    cval (cell (run true (start progs) sched)) <> total progs.
+Proof. exact ignore_loaded_refuted. Qed.
+Print Assumptions C33_ignore_loaded_refuted.
+
+(* Interleavings, 2: with every operation acting atomically on its own cell (1, and cells of different
+   names / kinds never disturb each other: C33_cell_is_fold_of_its_operations), every interleaving of
+   the goroutines' operation lists is a permutation of their concatenation and leaves the same
+   counter / up-down value: the sum over all goroutines, whatever the order of increments and
+   (re-)registrations. *)
 From Coq Require Import Sorting.Permutation.
-Theorem C33_interleaved_counter_partial : forall name (threads : list (list mop)) ops,
+Theorem C33_interleaved_counter : forall name (threads : list (list mop)) ops,
   Permutation (concat threads) ops ->
   forallb (uses_as KCounter name) (concat threads) = true ->
   mget (fst (mrun false minit ops)) name =
   if reg_or_used name (concat threads) then Some (w64 (csum name (concat threads))) else None.
 Proof. exact interleaved_counter. Qed.
-Print Assumptions C33_interleaved_counter_partial.
-Theorem C33_interleaved_updown_partial : forall name (threads : list (list mop)) ops,
+Print Assumptions C33_interleaved_counter.
+Theorem C33_interleaved_updown : forall name (threads : list (list mop)) ops,
   Permutation (concat threads) ops ->
   forallb (uses_as KUpDown name) (concat threads) = true ->
   mget (fst (mrun false minit ops)) name =
   if reg_or_used name (concat threads) then Some (udsum name (concat threads)) else None.
 Proof. exact interleaved_updown. Qed.
-Print Assumptions C33_interleaved_updown_partial.
+Print Assumptions C33_interleaved_updown.
 
 (* The pinned code: registering a counter again resets it (2 -> 0). *)
 Theorem C33_pinned_code_reregister_resets :
@@ -89,6 +114,11 @@ Proof. exact reregister_refuted. Qed.
 Print Assumptions C33_pinned_code_reregister_resets.
 
 (* Non-vacuity: lazily re-registering components, interleaved kinds and names. *)
+Example C33_interleaving_nonvacuous :
+  finished (run false (start [[CAdd 1; CGet]; [CAdd 1]; [CReg; CAdd 5]]) [0; 1; 2; 0; 1; 2; 2; 0; 1; 2; 0]%nat) = true /\
+  cell (run false (start [[CAdd 1; CGet]; [CAdd 1]; [CReg; CAdd 5]]) [0; 1; 2; 0; 1; 2; 2; 0; 1; 2; 0]%nat) = Some 7.
+Proof. vm_compute. split; reflexivity. Qed.
+
 Example C33_nonvacuous :
   let ops := [MReg 1 KCounter; MInc 1; MCount 1 41; MReg 2 KGauge; MReg 1 KCounter; MGaugeSet 2 7;
               MUp 3; MReg 3 KUpDown; MUp 3; MDown 3; MReg 2 KGauge; MInc 1; MStore 9 5;
